@@ -2,34 +2,6 @@
 #include "vf_prelude.h"
 #include "vf_replaced.h"
 
-#ifdef VF_REPLACE_ALLOC
-/* Allocator model of this unit (hook provided by vf_support.c): every block has EXACTLY the requested size (out-of-bounds
- * accesses stay visible). Performance hint only: the first two blocks are created as arrays of double, the third as an
- * array of int (that is how dgsrfs uses work / rwork / iwork); CBMC's memory model is byte-accurate whatever the declared
- * element type, so the hint cannot hide or create a behaviour - but an untyped byte array turns every double store into
- * an 8-way byte update of a symbolic-size array, which is intractable (DESIGN.md 2). */
-void *vf_malloc(size_t n)
-{
-    static int vf_k;
-    void *p;
-    int k = vf_k < 3 ? vf_k++ : 3;
-    if (k <= 1 && n % sizeof(double) == 0) {
-        size_t cnt = n / sizeof(double);
-        p = __CPROVER_allocate(sizeof(double) * cnt, 0);
-    } else if (k == 2 && n % sizeof(int) == 0) {
-        size_t cnt = n / sizeof(int);
-        p = __CPROVER_allocate(sizeof(int) * cnt, 0);
-    } else
-        p = malloc(n);
-    if (p) g_live++;
-    return p;
-}
-void vf_free(void *p)
-{
-    if (p) g_live--;
-    free(p);
-}
-#endif
 
 /* all argument objects are created by the contract's preconditions (__CPROVER_is_fresh) */
 void h_dgsrfs(void)
